@@ -44,6 +44,9 @@ theorem Quat.relAll_iff (a b : Quat α) :
 theorem euler_relAll_iff (a b : α × α × α) :
     eulerRelAll r a b = true ↔ r a.1 b.1 = true ∧ r a.2.1 b.2.1 = true ∧ r a.2.2 b.2.2 = true := by
   simp [eulerRelAll, and_assoc]
+/-- the model's relation on a `Basis2` / `Basis3` is the matrix relation on its `mat` field (true by construction of the model:
+`⟨rfl, rfl⟩` on the definitions, which transcribe the delegating `approx` impls of the Rust newtypes; despite the name this is an
+equality of the two Boolean functions, not an unfolding into components) -/
 theorem basis_relAll_iff (a b : Basis2 α) (c d : Basis3 α) :
     (Basis2.relAll r a b = M2.relAll r a.mat b.mat) ∧ (Basis3.relAll r c d = M3.relAll r c.mat d.mat) :=
   ⟨rfl, rfl⟩
